@@ -224,6 +224,9 @@ class Sweep:
         if 'optional' in ops:
             from contracts import b_edit_views
             b_edit_views.optional_steps(self, root, quick, rnd)
+        if 'badopts' in ops:
+            from contracts import b_edit_ext
+            b_edit_ext.badopt_steps(self, paths, quick, rnd)
         if 'slice' in ops:
             self.sweep_slices(root, quick, rnd)
         if 'seq' in ops:
